@@ -254,6 +254,47 @@ def gp_run(find, log, evname, mkev, pop, budget_n, spec, seed, tagno):
         find.add(f"rt:C13:{evname}.counter", f"{desc}: evaluator counted {ev.number_of_evaluations()}, the fitness function was invoked {len(lines)} times", (pop, budget_n, 99), ("SingleObjectiveProblem",))
 
 
+def short_lived_problems(find):
+    """The same individuals are evaluated for a problem that is then dropped, and afterwards for a NEW problem (which the
+    allocator likes to place where the old one was): the recorded fitness for the new problem must be what ITS fitness
+    function returns, computed by one invocation per individual, and the counter must move."""
+    import gc
+    from geneticengine.evaluation.sequential import SequentialEvaluator
+    from geneticengine.problems import SingleObjectiveProblem
+    from geneticengine.solutions.individual import Individual
+    from rt.search_helpers import IntRep
+
+    rep = IntRep()
+    inds = [Individual(rep.create_genotype(None), rep) for _ in range(4)]
+    n = 0
+    for rnd in range(6):
+        calls = []
+        sign = rnd % 2 == 1
+
+        def ff(p, _r=rnd, _calls=calls):
+            _calls.append(p)
+            return float(p * 10 + _r)
+
+        problem = SingleObjectiveProblem(ff, minimize=sign)
+        ev = SequentialEvaluator()
+        ev.evaluate(problem, inds)
+        n += 1
+        got = [i.get_fitness(problem).fitness_components[0] for i in inds]
+        want = [float(i.get_phenotype() * 10 + rnd) for i in inds]
+        aggs = [i.get_fitness(problem).maximizing_aggregate for i in inds]
+        if got != want or len(calls) != len(inds) or ev.number_of_evaluations() != len(inds) or aggs != [(-w if sign else w) for w in want]:
+            find.add(
+                "rt:C13:Individual.fitness_of_a_later_problem",
+                f"round {rnd + 1}: 4 individuals evaluated for a new problem after an earlier one was dropped: recorded components {got} (expected {want}), aggregates {aggs}, "
+                f"{len(calls)} fitness invocations, counter {ev.number_of_evaluations()}",
+                (rnd,),
+            )
+            break
+        del problem, ev, ff
+        gc.collect()
+    return n
+
+
 def run(tier: str, seed: int) -> dict:
     quick = tier != "thorough"
     dl = Deadline(22 if quick else 240)
@@ -269,6 +310,7 @@ def run(tier: str, seed: int) -> dict:
         kinds = problem_kinds()
         names = list(kinds)
         evaluations += check_problem_level(find, log, kinds)
+        evaluations += short_lived_problems(find)
         serial = 1000
         vias = ("evaluate", "evaluate_async", "tracker", "Population twice")
         # sequential: every size 1..4 x every pre-evaluation mask x duplicate position x problem x way of presenting
